@@ -295,11 +295,56 @@ pub fn check_builtin(c: &Builtin) -> Outcome {
     }
 }
 
+/// many calls of string-keyed built-ins (matches / duration / timestamp / int / double) with generated texts, valid and
+/// invalid, one after the other in one process: whatever the implementation remembers between calls, none of them panics
+#[derive(Clone, Debug, Serialize, Deserialize)]
+pub struct Churn {
+    pub func: String,
+    pub base: u32,
+    pub count: u16,
+}
+
+fn churn_text(func: &str, k: u32) -> String {
+    match (func, k % 4) {
+        ("matches", 0) => format!("({k}"),
+        ("matches", 1) => format!("a{k}"),
+        ("matches", 2) => format!("[{k}"),
+        ("matches", _) => format!("x{{{k},1}}"),
+        ("duration", 0) => format!("{k}x"),
+        ("duration", 1) => format!("{k}s"),
+        ("duration", 2) => format!("1h{k}"),
+        ("duration", _) => format!("{k}ms{k}"),
+        ("timestamp", 0) => format!("2020-01-01T00:00:{:02}Z", k % 60),
+        ("timestamp", 1) => format!("2020-13-{k}"),
+        ("timestamp", 2) => format!("{k}"),
+        ("timestamp", _) => format!("20{:02}-02-30T00:00:00Z", k % 100),
+        (_, 0) => format!("{k}"),
+        (_, 1) => format!("{k}q"),
+        (_, 2) => format!("-{k}"),
+        _ => format!("{k}.{k}e"),
+    }
+}
+
+pub fn check_churn(c: &Churn) -> Outcome {
+    let src = if c.func == "matches" { "'subject a1 x'.matches(p)".to_string() } else { format!("{}(p)", c.func) };
+    let (mut ok, mut err) = (0, 0);
+    for i in 0..c.count as u32 {
+        let text = churn_text(&c.func, c.base.wrapping_add(i));
+        match sut::run_src(&src, &[("p".to_string(), V::Str(text.clone()))]) {
+            Ran::CompilePanic(p) => return fail(format!("`{src}`: compile {}", p.short())),
+            Ran::Done(R::Panic(p)) => return fail(format!("call {i} of {} consecutive calls `{src}` with p = {text:?} (texts {}(base {} + i)): {}", c.count, c.func, c.base, p.short())),
+            Ran::Done(R::Val(_)) => ok += 1,
+            _ => err += 1,
+        }
+    }
+    pass_n(ok > 0 && err > 0, vec!["consecutive-calls-with-many-distinct-texts"])
+}
+
 pub fn run(r: &mut Runner) {
     r.rule = "cases: (untyped grammar-generated program of depth <= 8 over every operator, macro, built-in in both call styles, literal form, struct literal, select/index/has; \
               context with i64/u64 extremes, NaN/inf, empty and non-ASCII strings/bytes, nested lists/maps, durations and timestamps up to chrono's limits, function values, and \
               host functions of arity 0-4 including failing ones); all ordered pairs of a boundary value set under + - * / % == partial_cmp applied directly through the operator traits; \
-              every built-in applied to every boundary value in both call styles. Oracle: the outcome is Ok or Err - no panic, no abort (worker processes are supervised), and rendering the \
+              every built-in applied to every boundary value in both call styles; 150-400 consecutive calls of matches / duration / timestamp / int / double with distinct valid and invalid texts in one process. Oracle: the outcome is Ok or Err - no panic, no abort (worker processes are supervised), and rendering the \
               outcome does not panic. Non-trivial: the program compiled, has at least one operator/call and evaluation got past the first leaf; pairs of different kinds or numeric/time kinds; distinct by (source, context)."
         .into();
     r.assumptions = vec!["all cases run on an 8 MiB stack; depth <= 8 is inside the safe envelope (DESIGN §1)".into(), "overflow checks are enabled in the harness build, so unchecked arithmetic in the interpreter panics instead of wrapping".into()];
@@ -362,6 +407,13 @@ pub fn run(r: &mut Runner) {
         np / 2,
         |u| Pair { a: gen_value(u, 3, ValOpts::ALL), b: gen_value(u, 3, ValOpts::ALL), op: u.below(7) as u8 },
         check_pair,
+    );
+    r.random(
+        "many-distinct-texts-one-after-the-other",
+        8,
+        r.tier.n(48, 1600),
+        |u| Churn { func: u.pick(&["matches", "matches", "duration", "timestamp", "int", "double"]).to_string(), base: u.below(1 << 20) as u32, count: (150 + u.below(250)) as u16 },
+        check_churn,
     );
     for v in ERR_VARIANTS {
         if !matches!(v, "UnsupportedFunctionCallIdentifierType" | "UnsupportedFieldsConstruction" | "NotSupportedAsMethod" | "err:other-variant") {
